@@ -26,19 +26,19 @@ import (
 // judged by the Go oracle only (zone ground truth); the model prints `unmodelled`.
 
 type sysWorld struct {
-	w        *l3.World
-	p        *l3.Pipe
-	spec     map[string]string
-	srv      map[string]*l3.Server // root tld zone sub other plain
-	tampers  map[string][]tamper
-	tampered bool // some server has been scripted since `new` (sticky)
-	noAnchor bool // no live trust anchor
-	cleared  bool // … because the trust set was emptied in mid-history (caches may hold validated answers)
-	asked    map[string]bool // names that were resolved (as question or alias target) while the anchors were live
-	evil     *l3.KeyPair
-	taB      *l3.KeyPair // second configured root anchor (worlds with ta=t)
-	taRevSeen bool       // a refresh has fetched B's self-signed revocation, authenticated by the live anchor A
-	taPub    string
+	w         *l3.World
+	p         *l3.Pipe
+	spec      map[string]string
+	srv       map[string]*l3.Server // root tld zone sub other plain
+	tampers   map[string][]tamper
+	tampered  bool            // some server has been scripted since `new` (sticky)
+	noAnchor  bool            // no live trust anchor
+	cleared   bool            // … because the trust set was emptied in mid-history (caches may hold validated answers)
+	asked     map[string]bool // names that were resolved (as question or alias target) while the anchors were live
+	evil      *l3.KeyPair
+	taB       *l3.KeyPair // second configured root anchor (worlds with ta=t)
+	taRevSeen bool        // a refresh has fetched B's self-signed revocation, authenticated by the live anchor A
+	taPub     string
 }
 
 type tamper struct {
@@ -987,7 +987,9 @@ func sysAdvance(f []string) vlib.Res {
 }
 
 // l3 ta publish <a|ab|abr|ar>   what the root publishes as its DNSKEY RRset from now on: anchor A alone, A and B,
-//                               A and B with the REVOKE bit (self-signed by B as RFC 5011 §2.1 demands)
+//
+//	A and B with the REVOKE bit (self-signed by B as RFC 5011 §2.1 demands)
+//
 // l3 ta refresh                 one run of the background trust-anchor worker (Resolver.AutoTA)
 // l3 ta live                    the live trust set, judged: a revocation once observed is final
 func sysTA(f []string) vlib.Res {
@@ -1566,6 +1568,9 @@ func genL3(r *vlib.R, emit func(string)) int {
 			e("l3 tamper zone dropsigs - all")
 		}
 		prime := []sysQ{{"zone.test.", "DNSKEY"}, {"zone.test.", "DS"}, {"test.", "DNSKEY"}, {"www.zone.test.", "A"}}
+		if subk == "s" {
+			prime = append(prime, sysQ{"sub.zone.test.", "DS"}, sysQ{"sub.zone.test.", "DNSKEY"})
+		}
 		for i := 0; i < 2+r.Intn(3); i++ {
 			q := prime[i%len(prime)]
 			if r.Chance(1, 4) {
